@@ -243,7 +243,7 @@ pub fn check_dirsection(sc: &Scenario, d: &DirOutcome) -> Vec<Violation> {
         let mut writes: Vec<(usize, Vec<u8>)> = Vec::new();
         // alternative legal order for a directory entry: append (slot still zero) first, entry second
         let mut alt_writes: Vec<(usize, Vec<u8>)> = Vec::new();
-        // an entry may also reach the destination in two pieces: its location first, its type last
+        // an entry may also reach the destination in pieces: its location first, its type last (upper half, then lower half)
         let mut split_writes: Vec<(usize, Vec<u8>)> = Vec::new();
         match op {
             DirOp::AllocU32(x) => {
@@ -292,7 +292,8 @@ pub fn check_dirsection(sc: &Scenario, d: &DirOutcome) -> Vec<Violation> {
                 alt_writes.push((start + pos, e.clone()));
                 split_writes = alt_writes[..alt_writes.len() - 1].to_vec();
                 split_writes.push((start + pos + 4, e[4..].to_vec()));
-                split_writes.push((start + pos, e[..4].to_vec()));
+                split_writes.push((start + pos + 2, e[2..4].to_vec()));
+                split_writes.push((start + pos, e[..2].to_vec()));
                 put_at(&mut image, pos, &e);
                 idx += 1;
                 // the statement fixes what ends up in the destination, not the order of the two writes
@@ -315,7 +316,8 @@ pub fn check_dirsection(sc: &Scenario, d: &DirOutcome) -> Vec<Violation> {
                 // destination with the next flush (the destination never runs ahead of the flushed image)
                 if pos + 12 <= flushed {
                     split_writes.push((start + pos + 4, e[4..].to_vec()));
-                    split_writes.push((start + pos, e[..4].to_vec()));
+                    split_writes.push((start + pos + 2, e[2..4].to_vec()));
+                    split_writes.push((start + pos, e[..2].to_vec()));
                     writes.push((start + pos, e));
                 }
             }
